@@ -62,6 +62,20 @@ func c11Check(e *Env, r *Runner, when string, doProbe bool) {
 			e.Probe("probe_zero")
 		}
 		e.Probe("conservation_checked")
+		// what the probe allocated page by page must also be allocatable at once
+		if n > 0 {
+			tx, err := r.F.Begin()
+			if err != nil {
+				e.Fail("C11", "probe", "%s: Begin failed: %v", when, err)
+				return
+			}
+			if _, err := tx.AllocN(n); err != nil {
+				e.Fail("C11", "spurious-out-of-memory", "%s: %d pages are allocatable one by one, but AllocN(%d) fails: %v", when, n, n, err)
+			}
+			if err := tx.Rollback(); err != nil {
+				e.Fail("C11", "probe", "%s: Rollback failed: %v", when, err)
+			}
+		}
 	}
 }
 
@@ -95,6 +109,26 @@ func c11Body(e *Env) {
 				everOOM = true
 			}
 			c11Check(e, r, when, probeRng.Intn(3) == 0)
+		}
+		r.OnCommitResult = func(rec *CommitRec, err error) {
+			if err == nil || r.F == nil {
+				return
+			}
+			// alloc/free cycles must be able to continue: a commit may only run
+			// out of space if space is actually scarce
+			// (the failed transaction has been rolled back already: compute the space
+			// that was left while its pages were still allocated)
+			snap := txfile.VerifAllocSnapshot(r.F)
+			free := int(snap.MaxPages) - 2 - int(snap.MetaTotal) - len(rec.State.Pages) - len(rec.Prev.Pages)
+			need := 0
+			for id := range rec.State.Pages {
+				if _, was := rec.Prev.Pages[id]; was {
+					need++ // upper bound for overwritten pages (each needs one WAL page)
+				}
+			}
+			if free >= 2*need+2*int(snap.MetaTotal)+48 {
+				e.Fail("C11", "spurious-out-of-memory", "Commit #%d failed (%v) although %d pages are free (at most %d overwritten pages, meta area %d pages)", rec.State.N, err, free, need, snap.MetaTotal)
+			}
 		}
 	})
 	if c.Cfg.Prealloc {
